@@ -97,16 +97,22 @@ pub struct Key {
     pub a: u32,
     pub sub: u16,
     pub sa: u32,
+    /// the actual argument value of alphabet-driven calls (so that two records are only ever
+    /// compared when they denote the same call with the same argument)
+    pub v: u64,
 }
 impl Key {
     pub fn new(q: u16, a: u32) -> Key {
-        Key { q, a, sub: S_SELF, sa: 0 }
+        Key { q, a, sub: S_SELF, sa: 0, v: 0 }
     }
     pub fn sub(&self, sub: u16, sa: u32) -> Key {
-        Key { q: self.q, a: self.a, sub, sa }
+        Key { q: self.q, a: self.a, sub, sa, v: 0 }
+    }
+    pub fn sub_v(&self, sub: u16, sa: u32, v: u64) -> Key {
+        Key { q: self.q, a: self.a, sub, sa, v }
     }
     pub fn pack(&self) -> u64 {
-        ((self.q as u64) << 48) ^ ((self.sub as u64) << 40) ^ ((self.a as u64) << 20) ^ (self.sa as u64)
+        (((self.q as u64) << 48) ^ ((self.sub as u64) << 40) ^ ((self.a as u64) << 20) ^ (self.sa as u64)).wrapping_add(self.v.wrapping_mul(0x9e3779b97f4a7c15))
     }
 }
 
@@ -326,7 +332,7 @@ macro_rules! emit_table {
             }
         }
         for (k, i) in index_alphabet(n, $ent).iter().enumerate() {
-            $s.call(key.sub(S_GET, 1000 + k as u32));
+            $s.call(key.sub_v(S_GET, 1000 + k as u32, *i as u64));
             match t.get(*i) {
                 Ok($item) => {
                     let $sink = &mut *$s;
@@ -354,7 +360,7 @@ macro_rules! emit_table {
 }
 
 pub fn emit_strtab_at<S: Sink>(s: &mut S, key: Key, st: &StringTable<'_>, slot: u32, off: usize) {
-    s.call(key.sub(S_STR_RAW, slot));
+    s.call(key.sub_v(S_STR_RAW, slot, off as u64));
     match st.get_raw(off) {
         Ok(b) => {
             s.b(b);
@@ -362,7 +368,7 @@ pub fn emit_strtab_at<S: Sink>(s: &mut S, key: Key, st: &StringTable<'_>, slot: 
         }
         Err(_) => s.done(false),
     }
-    s.call(key.sub(S_STR, slot));
+    s.call(key.sub_v(S_STR, slot, off as u64));
     match st.get(off) {
         Ok(b) => {
             s.b(b.as_bytes());
@@ -487,7 +493,7 @@ pub fn emit_symver<S: Sink, E: EndianParse>(s: &mut S, key: Key, t: &SymbolVersi
     for slot in 0..lim + alpha.len() {
         let i = if slot < lim { slot } else { alpha[slot - lim] };
         let sa = if slot < lim { slot as u32 } else { 1000 + (slot - lim) as u32 };
-        s.call(key.sub(S_REQ, sa));
+        s.call(key.sub_v(S_REQ, sa, i as u64));
         match t.get_requirement(i) {
             Ok(Some(r)) => {
                 s.u(1);
@@ -504,7 +510,7 @@ pub fn emit_symver<S: Sink, E: EndianParse>(s: &mut S, key: Key, t: &SymbolVersi
             }
             Err(_) => s.done(false),
         }
-        s.call(key.sub(S_DEF, sa));
+        s.call(key.sub_v(S_DEF, sa, i as u64));
         match t.get_definition(i) {
             Ok(Some(d)) => {
                 s.u(1);
